@@ -152,7 +152,7 @@ func burstCase(s burstSpec) vh.Case {
 			d.Mul(d, big.NewInt(8))
 			d.Add(d, big.NewInt(get(j)))
 		}
-		return fmt.Sprintf("(digs %s %d)", d.String(), nk)
+		return fmt.Sprintf("(digs 0x%s %d)", d.Text(16), nk)
 	}
 	rows := make([]string, len(s.Progs))
 	for g := range s.Progs {
@@ -273,8 +273,8 @@ func genBurst(rnd *rand.Rand, variant string, wide bool) burstSpec {
 	if rnd.Intn(4) == 0 {
 		s.KK = kkString
 	}
-	ng := 4 + rnd.Intn(13)
-	nk := 48 + rnd.Intn(80)
+	ng := 6 + rnd.Intn(11)
+	nk := 24 + rnd.Intn(56)
 	lo := int64(1 + rnd.Intn(1000))
 	need := int64(0)
 	for j := 0; j < nk; j++ {
